@@ -26,7 +26,7 @@ if ! git -C "$wt" apply "$out/patch.diff" 2>"$out/apply.log"; then echo "$name: 
 tests="skipped"
 if [ -f "$out/verify.json" ]; then tests=$(/venv/bin/python -c "import json,sys; print(json.load(open(sys.argv[1])).get('tests_with_change','skipped'))" "$out/verify.json"); fi
 if [ "${SKIP_TESTS:-0}" != "1" ]; then
-  tests=$( cd "$wt" && /venv/bin/python -m pytest -q -p no:cacheprovider -n ${NTEST:-6} --timeout=900 2>&1 | tail -1 )
+  tests=$( cd "$wt" && OMP_NUM_THREADS=1 OPENBLAS_NUM_THREADS=1 /venv/bin/python -m pytest -q -p no:cacheprovider -n ${NTEST:-6} --timeout=900 2>&1 | tail -1 )
 fi
 unset PYTHONPATH
 res=""
